@@ -797,7 +797,7 @@ def _combination_is_allof_only(rep: Report, ix: Any) -> None:
 
     rep.rule("R10.12", "the requiredness of two declarations is combined (`required=<a>.required or <b>.required` and the like) only for "
                        "allOf: every function from which such a combination is reached lies in the module of merge_properties, or "
-                       "is a private helper all of whose callers qualify, or is (with its private helpers and closures) the "
+                       "is a private helper (or a method of a private class) all of whose callers (users) qualify, or is (with its private helpers and closures) the "
                        "function that walks `<schema>.allOf`; anywhere else - parameters of an operation over those of its path item, "
                        "a reference over its target - one declaration replaces the other and keeps its own `required`")
     mp = ix.func("merge_properties.merge_properties")
@@ -834,6 +834,13 @@ def _combination_is_allof_only(rep: Report, ix: Any) -> None:
                 out.append(g)
         return out
 
+    def users(k: Any) -> list[Any]:
+        out = []
+        for g in ix.all_functions:
+            if g.parent is None and g.cls is not k and any(isinstance(x, ast.Name) and x.id == k.name for x in ast.walk(g.node)) and g not in out:
+                out.append(g)
+        return out
+
     def walks_allof(g: Any) -> bool:
         return any(isinstance(x, ast.Attribute) and x.attr == "allOf" for h in region(ix, g) for x in ast.walk(h.node))
 
@@ -850,6 +857,8 @@ def _combination_is_allof_only(rep: Report, ix: Any) -> None:
             continue
         elif g.name.startswith("_") and not g.name.startswith("__") and callers(g):
             nxt = callers(g)
+        elif g.cls is not None and g.cls.name.startswith("_") and users(g.cls):
+            nxt = users(g.cls)     # a method of a private class: the functions that use the class
         else:
             bad.append((g, via))
             continue
